@@ -17,28 +17,36 @@ def Rd.rank : Rd → Nat
 def Side.mu (d : Side) : Nat := 3 * (d.pipe.length + d.pending.length) + d.rd.rank
 
 def Pc.mu (timeout now : Nat) : Pc → Nat
-  | .load => 5 + 5 * (timeout - now) + 4
-  | .tryWait => 5 + 5 * (timeout - now) + 3
-  | .deadline => 5 + 5 * (timeout - now) + 2
-  | .sleep w => 5 + 5 * (timeout - w) + 5
-  | .kill _ => 4
-  | .reap _ => 3
+  | .load => 6 + 5 * (timeout - now) + 4
+  | .tryWait => 6 + 5 * (timeout - now) + 3
+  | .deadline => 6 + 5 * (timeout - now) + 2
+  | .sleep w => 6 + 5 * (timeout - w) + 5
+  | .kill _ => 5
+  | .reap _ => 4
+  | .eJoinWr _ => 3
   | .eJoinOut _ => 2
   | .eJoinErr _ => 1
+  | .joinWr _ => 5
   | .joinOut _ => 4
   | .flagOut _ => 3
   | .joinErr _ _ => 2
   | .flagErr _ _ => 1
   | .done _ => 0
+  | .preJoinWr => 0
+
+/-- Work left on the stdin side: bytes still to be written and read, the writer's last step, the
+child's `close`. -/
+def Inp.mu (i : Inp) : Nat :=
+  2 * i.pending + i.pipe + (if i.wr = .busy then 1 else 0) + (if i.childOpen = true then 1 else 0)
 
 def Child.mu : Child → Nat
   | .alive => 1
   | _ => 0
 
-/-- The variant: main thread + both readers + the child's remaining writes. -/
+/-- The variant: main thread + both readers + the child's remaining writes + the stdin side. -/
 def State.mu (cfg : Cfg) (s : State) : Nat :=
   Pc.mu cfg.timeout s.now s.pc + s.o.mu + s.e.mu +
-    (2 * (s.o.pending.length + s.e.pending.length) + s.child.mu)
+    (2 * (s.o.pending.length + s.e.pending.length) + s.child.mu) + s.i.mu
 
 theorem Side.write_mu {pipeCap n} {d d' : Side} (h : Side.write pipeCap d n = some d') :
     d'.mu ≤ d.mu ∧ d'.pending.length < d.pending.length := by
@@ -62,7 +70,7 @@ theorem Side.drop_mu {n} {d d' : Side} (h : Side.drop d n = some d') :
   · next hn =>
     have hn' : 0 < n ∧ n ≤ pending.length := by simp at hn; omega
     cases rd <;> simp at h
-    subst h; simp [Side.mu, Rd.rank]; omega
+    all_goals (subst h; simp [Side.mu, Rd.rank]; omega)
 
 theorem Side.read_mu {chunk} {d d' : Side} (h : Side.read chunk d = some d') :
     d'.mu < d.mu ∧ d'.pending = d.pending := by
@@ -80,6 +88,56 @@ theorem Side.eof_mu {al} {d d' : Side} (h : Side.eof al d = some d') :
   cases rd <;> simp at h
   obtain ⟨_, rfl⟩ := h
   simp [Side.mu, Rd.rank]
+
+theorem Side.fail_mu {d d' : Side} (h : Side.fail d = some d') :
+    d'.mu < d.mu ∧ d'.pending = d.pending := by
+  obtain ⟨pending, written, pipe, acc, rd⟩ := d
+  simp only [Side.fail] at h
+  cases rd <;> simp at h
+  subst h
+  simp [Side.mu, Rd.rank]
+
+theorem Inp.write_mu {pipeCap al n} {i i' : Inp} (h : Inp.write pipeCap al i n = some i') : i'.mu < i.mu := by
+  obtain ⟨pending, pipe, wr, co⟩ := i
+  simp only [Inp.write] at h
+  cases wr <;> simp at h
+  obtain ⟨⟨h1, h2, _, _⟩, rfl⟩ := h
+  simp only [Inp.mu]; omega
+
+theorem Inp.finish_mu {i i' : Inp} (h : Inp.finish i = some i') : i'.mu < i.mu := by
+  obtain ⟨pending, pipe, wr, co⟩ := i
+  simp only [Inp.finish] at h
+  cases wr <;> simp at h
+  obtain ⟨_, rfl⟩ := h
+  simp [Inp.mu]
+
+theorem Inp.epipe_mu {al} {i i' : Inp} (h : Inp.epipe al i = some i') : i'.mu < i.mu := by
+  obtain ⟨pending, pipe, wr, co⟩ := i
+  simp only [Inp.epipe] at h
+  cases wr <;> simp at h
+  obtain ⟨_, rfl⟩ := h
+  simp [Inp.mu]
+
+theorem Inp.fail_mu {i i' : Inp} (h : Inp.fail i = some i') : i'.mu < i.mu := by
+  obtain ⟨pending, pipe, wr, co⟩ := i
+  simp only [Inp.fail] at h
+  cases wr <;> simp at h
+  obtain ⟨_, rfl⟩ := h
+  simp [Inp.mu]
+
+theorem Inp.childRead_mu {n} {i i' : Inp} (h : Inp.childRead i n = some i') : i'.mu < i.mu := by
+  obtain ⟨pending, pipe, wr, co⟩ := i
+  simp only [Inp.childRead] at h
+  split at h
+  · next hc => cases h; simp only [Inp.mu]; omega
+  · cases h
+
+theorem Inp.childClose_mu {i i' : Inp} (h : Inp.childClose i = some i') : i'.mu < i.mu := by
+  obtain ⟨pending, pipe, wr, co⟩ := i
+  simp only [Inp.childClose] at h
+  split at h
+  · next hc => cases h; subst hc; simp [Inp.mu]
+  · cases h
 
 theorem Side.check_mu {cap my flag flag'} {d d' : Side} (h : Side.check cap my flag d = some (d', flag')) :
     d'.mu < d.mu ∧ d'.pending = d.pending := by
@@ -159,6 +217,47 @@ theorem step_mu_lt {cfg : Cfg} {plan : Plan} {s s' : State} {l : Label}
     obtain ⟨⟨d', f'⟩, hd, rfl⟩ := h
     have := Side.check_mu hd
     cases x <;> simp_all [State.mu] <;> omega
+  | rdFail x =>
+    simp only [step, Option.map_eq_some_iff] at h
+    obtain ⟨d', hd, rfl⟩ := h
+    have := Side.fail_mu hd
+    cases x <;> simp_all [State.mu] <;> omega
+  | wrWrite n =>
+    simp only [step, Option.map_eq_some_iff] at h
+    obtain ⟨i', hi, rfl⟩ := h
+    have := Inp.write_mu hi
+    simp only [State.mu]; omega
+  | wrEnd =>
+    simp only [step, Option.map_eq_some_iff] at h
+    obtain ⟨i', hi, rfl⟩ := h
+    have := Inp.finish_mu hi
+    simp only [State.mu]; omega
+  | wrEpipe =>
+    simp only [step, Option.map_eq_some_iff] at h
+    obtain ⟨i', hi, rfl⟩ := h
+    have := Inp.epipe_mu hi
+    simp only [State.mu]; omega
+  | wrFail =>
+    simp only [step, Option.map_eq_some_iff] at h
+    obtain ⟨i', hi, rfl⟩ := h
+    have := Inp.fail_mu hi
+    simp only [State.mu]; omega
+  | childRead n =>
+    simp only [step] at h
+    split at h
+    · simp only [Option.map_eq_some_iff] at h
+      obtain ⟨i', hi, rfl⟩ := h
+      have := Inp.childRead_mu hi
+      simp only [State.mu]; omega
+    · cases h
+  | childCloseIn =>
+    simp only [step] at h
+    split at h
+    · simp only [Option.map_eq_some_iff] at h
+      obtain ⟨i', hi, rfl⟩ := h
+      have := Inp.childClose_mu hi
+      simp only [State.mu]; omega
+    · cases h
 
 /-- … and the passing of time never increases it. -/
 theorem step_mu_tick {cfg : Cfg} {plan : Plan} {s s' : State}
@@ -196,11 +295,11 @@ namespace NaijaVerif.Capture
 set_option linter.unusedSimpArgs false
 
 /-- A reader that has not finished can always take a step once the child is gone. -/
-theorem Side.can_step {cap chunk my flag : Nat} {d : Side} (hchunk : 0 < chunk) (hj : d.joined = false) :
+theorem Side.can_step {cap chunk my flag : Nat} {d : Side} (hchunk : 0 < chunk) (hj : d.finished = false) :
     (Side.read chunk d).isSome = true ∨ (Side.check cap my flag d).isSome = true ∨
       (Side.eof false d).isSome = true := by
   obtain ⟨pending, written, pipe, acc, rd⟩ := d
-  cases rd <;> simp [Side.joined] at hj
+  cases rd <;> simp [Side.finished] at hj
   · by_cases hp : pipe = []
     · right; right; simp [Side.eof, hp]
     · left; simp [Side.read, hp]; omega
@@ -212,18 +311,36 @@ def readerEnabled (cfg : Cfg) (plan : Plan) (s : State) (x : Strm) : Prop :=
     (step cfg plan s (.rdEof x)).isSome = true
 
 theorem readerEnabled_of {cfg : Cfg} {plan : Plan} {s : State} {x : Strm} (hchunk : 0 < cfg.chunk)
-    (hj : (s.side x).joined = false) (hd : s.child.isAlive = false) : readerEnabled cfg plan s x := by
+    (hj : (s.side x).finished = false) (hd : s.child.isAlive = false) : readerEnabled cfg plan s x := by
   unfold readerEnabled
   simp only [step, Option.isSome_map, hd]
   exact Side.can_step hchunk hj
 
+/-- Is some step of the stdin writer enabled (other than a fault)? -/
+def writerEnabled (cfg : Cfg) (plan : Plan) (s : State) : Prop :=
+  (∃ n, (step cfg plan s (.wrWrite n)).isSome = true) ∨ (step cfg plan s .wrEnd).isSome = true ∨
+    (step cfg plan s .wrEpipe).isSome = true
+
+/-- **The writer can always finish once the child is gone** (after the kill, or after the child
+ended by itself): with nothing left to write it ends, otherwise its next `write` gets `EPIPE`. -/
+theorem writerEnabled_of {cfg : Cfg} {plan : Plan} {s : State}
+    (hb : s.i.finished = false) (hd : s.child.isAlive = false) :
+    (step cfg plan s .wrEnd).isSome = true ∨ (step cfg plan s .wrEpipe).isSome = true := by
+  have hwr : s.i.wr = .busy := by
+    unfold Inp.finished at hb; cases hw : s.i.wr <;> simp_all
+  simp only [step, Option.isSome_map, Inp.finish, Inp.epipe, hwr, Inp.readable, hd, Bool.false_and]
+  by_cases hp : s.i.pending = 0
+  · left; simp [hp]
+  · right; simp; omega
+
 /-- **No deadlock, and no dependence on the child's cooperation.** In every reachable non-terminal
 state the runner itself can move: the main thread has an enabled step, or it sleeps and time is
-what it waits for, or it waits in a `join` for a reader thread that has an enabled step. -/
+what it waits for, or it waits in a `join` for a reader thread that has an enabled step, or for the
+writer thread that has one. -/
 theorem progress_of_inv {cfg : Cfg} {plan : Plan} {s : State} (hchunk : 0 < cfg.chunk)
     (h : Inv cfg plan s) (hnt : s.result = none) :
     (step cfg plan s .main).isSome = true ∨ (∃ w, s.pc = .sleep w ∧ s.now < w) ∨
-      (∃ x, readerEnabled cfg plan s x) := by
+      (∃ x, readerEnabled cfg plan s x) ∨ writerEnabled cfg plan s := by
   have hp := h.pcInv
   unfold PcInv at hp
   have hdead : s.child.isReaped = true → s.child.isAlive = false := by
@@ -242,30 +359,46 @@ theorem progress_of_inv {cfg : Cfg} {plan : Plan} {s : State} (hchunk : 0 < cfg.
   case reap e =>
     left; simp only [step, stepMain, hpc]
     cases hc : s.child <;> simp_all [Child.isZombie]
+  case eJoinWr e =>
+    cases hj : s.i.finished
+    · right; right; right
+      rcases writerEnabled_of (cfg := cfg) (plan := plan) hj (hdead hp.1) with hw | hw
+      · exact Or.inr (Or.inl hw)
+      · exact Or.inr (Or.inr hw)
+    · left; simp [step, stepMain, hpc, hj]
+  case joinWr st =>
+    cases hj : s.i.finished
+    · right; right; right
+      rcases writerEnabled_of (cfg := cfg) (plan := plan) hj (hdead hp.1) with hw | hw
+      · exact Or.inr (Or.inl hw)
+      · exact Or.inr (Or.inr hw)
+    · left; simp only [step, stepMain, hpc]
+      unfold Inp.finished at hj
+      cases hw : s.i.wr <;> simp_all
   case eJoinOut e =>
-    cases hj : s.o.joined
-    · right; right; exact ⟨.out, readerEnabled_of hchunk hj (hdead hp.1)⟩
+    cases hj : s.o.finished
+    · right; right; left; exact ⟨.out, readerEnabled_of hchunk hj (hdead hp.1)⟩
     · left; simp [step, stepMain, hpc, hj]
   case eJoinErr e =>
-    cases hj : s.e.joined
-    · right; right; exact ⟨.err, readerEnabled_of hchunk hj (hdead hp.1)⟩
+    cases hj : s.e.finished
+    · right; right; left; exact ⟨.err, readerEnabled_of hchunk hj (hdead hp.1)⟩
     · left; simp [step, stepMain, hpc, hj]
   case joinOut st =>
-    cases hj : s.o.joined
-    · right; right; exact ⟨.out, readerEnabled_of hchunk hj (hdead hp.1)⟩
+    cases hj : s.o.finished
+    · right; right; left; exact ⟨.out, readerEnabled_of hchunk hj (hdead hp.1)⟩
     · left; simp only [step, stepMain, hpc]
-      rw [Side.joined_iff] at hj
-      rcases hj with hj | hj | hj <;> simp [hj]
+      rw [Side.finished_iff] at hj
+      rcases hj with hj | hj | hj | hj <;> simp [hj]
   case flagOut st =>
     left; simp only [step, stepMain, hpc]; split
     · rfl
     · split <;> rfl
   case joinErr st ro =>
-    cases hj : s.e.joined
-    · right; right; exact ⟨.err, readerEnabled_of hchunk hj (hdead hp.1.1)⟩
+    cases hj : s.e.finished
+    · right; right; left; exact ⟨.err, readerEnabled_of hchunk hj (hdead hp.1.1)⟩
     · left; simp only [step, stepMain, hpc]
-      rw [Side.joined_iff] at hj
-      rcases hj with hj | hj | hj <;> simp [hj]
+      rw [Side.finished_iff] at hj
+      rcases hj with hj | hj | hj | hj <;> simp [hj]
   case flagErr st ro =>
     left; simp only [step, stepMain, hpc]; split
     · rfl
